@@ -540,6 +540,11 @@ def printed (safeFilter autoescape : Bool) (v : V) : Bytes :=
   if !safeFilter && !v.safe && (v.v.isString || v.v.isStringer) && autoescape then escapeHtml v.v.toS
   else v.v.toS
 
+/-- what `{% firstof %}` writes for the chosen value: escaped whatever its kind, unless the
+    argument carries the `safe` filter or autoescape is off -/
+def firstofText (safeFilter autoescape : Bool) (v : V) : Bytes :=
+  if autoescape && !safeFilter then escapeHtml v.v.toS else v.v.toS
+
 /-! ### literal text (`nodeHTML.Execute` with the option handling of `newTemplate`) -/
 
 /-- the bytes a text node writes: `trimBlocks`/`lstripBlocks` are the options of the
@@ -1068,8 +1073,7 @@ def firstof : Nat → List Expr → XM Unit
     let v ← eval fuel a
     if v.v.isTrue then
       let fr ← cur
-      if fr.autoescape && !filterApplied b!"safe" fuel a then write (escapeHtml v.v.toS)
-      else write v.v.toS
+      write (firstofText (filterApplied b!"safe" fuel a) fr.autoescape v)
     else firstof fuel rest
 
 def ifChain : Nat → List Expr → List (List Node) → Nat → XM Unit
